@@ -9,6 +9,7 @@ AREA = "runner"
 EXTRACT_V = "Runner/Extract.v"
 GO_CMD = "hx-runner"
 RUN_TIMEOUT = 1500
+PARALLEL = 10
 RULE = ("partial-signature histories delivered to real runners in the decided state (5 consensus roles incl. "
         "capella/deneb/blinded proposals, + voluntary exit and validator registration): n=4 every arrival order "
         "x 18 fault kinds x faulty sender, n=4/7/10/13 random orders with <= f faulty senders, unrestricted traffic; "
@@ -51,14 +52,15 @@ def runs(tier, seed):
         r += [("rnd%d" % i, ["post-rnd", "-seed", str(seed * 1000 + i), "-n", "3000"]) for i in range(8)]
         r += [("free%d" % i, ["post-free", "-seed", str(seed * 1000 + i), "-n", "2000"]) for i in range(6)]
         return r
-    return [("exh-scc", ["post-exh", "-roles", "scc"]),
+    return [("exh-scc-a", ["post-exh", "-roles", "scc", "-part", "0", "-parts", "3"]),
+            ("exh-scc-b", ["post-exh", "-roles", "scc", "-part", "1", "-parts", "3"]),
+            ("exh-scc-c", ["post-exh", "-roles", "scc", "-part", "2", "-parts", "3"]),
             ("exh-att", ["post-exh", "-roles", "att"]),
             ("exh-prop", ["post-exh", "-roles", "prop"]),
             ("exh-vexit", ["post-exh", "-roles", "vexit"]),
-            ("exh-agg", ["post-exh", "-roles", "agg"]),
-            ("rnd", ["post-rnd", "-seed", str(seed), "-n", "700"]),
-            ("rnd2", ["post-rnd", "-seed", str(seed + 7919), "-n", "700", "-roles", "propc,propb,sc,vreg,scc"]),
-            ("free", ["post-free", "-seed", str(seed), "-n", "600"])]
+            ("rnd", ["post-rnd", "-seed", str(seed), "-n", "600"]),
+            ("rnd2", ["post-rnd", "-seed", str(seed + 7919), "-n", "500", "-roles", "propc,propb,agg,sc,vreg,scc"]),
+            ("free", ["post-free", "-seed", str(seed), "-n", "500"])]
 
 
 def search_runs(tier, seed):
